@@ -293,11 +293,21 @@ func modeRace(c *Ctx) {
 		order = order[:0]
 		orderMu.Unlock()
 		var wg sync.WaitGroup
+		// every phase starts with the documented default: no NotFoundHandler
+		c.SetField(api, "NotFoundHandler", nil)
+		start := make(chan struct{})
 		for gi := 0; gi < G; gi++ {
 			wg.Add(1)
 			go func(gi int) {
 				defer wg.Done()
 				rng := rand.New(rand.NewSource(c.Case.Seed*1000 + int64(gi) + int64(procs)*77))
+				<-start
+				if gi%2 == 0 {
+					// the first requests of half the goroutines are unrouted ones, all at once
+					w := newRec()
+					h.ServeHTTP(w, NewRequest("GET", c.Base+"/no/such/path/anywhere/at/all", "", nil, nil))
+					c.Stat("unrouted_requests", 1)
+				}
 				for i := 0; i < R; i++ {
 					id := atomic.AddInt64(&idSeq, 1) + 1000
 					if specWant != "" && rng.Intn(12) == 0 {
@@ -353,6 +363,7 @@ func modeRace(c *Ctx) {
 				}
 			}(gi)
 		}
+		close(start)
 		wg.Wait()
 		runtime.GOMAXPROCS(prev)
 		orderMu.Lock()
